@@ -12,8 +12,14 @@ import time
 
 ROOT = os.path.dirname(os.path.dirname(os.path.abspath(__file__)))
 REPO = os.environ.get("MOS_REPO", "/repo")
-CACHE = os.path.join(ROOT, ".cache")
-COQ = os.path.join(ROOT, "coq")
+# VERIF_OUT (used by tools/mutcheck only): a scratch directory that holds everything a run writes (copy of coq/, extracted
+# code, cargo targets, evidence), so that a check can be run against a scratch worktree of /repo (MOS_REPO) without
+# touching /verif's own build products.  Registered checks never set it.
+OUT = os.environ.get("VERIF_OUT", ROOT)
+CACHE = os.path.join(OUT, ".cache")
+COQ = os.path.join(OUT, "coq")
+EVIDENCE = os.path.join(OUT, "evidence")
+GENML = os.path.join(OUT, "extract", "gen")
 GUARD = "mos_verif"
 sys.path.insert(0, os.path.join(ROOT, "translate"))
 
@@ -54,10 +60,22 @@ class Lock:
 
 
 # ----------------------------------------------------------------------------- builds
-def build_probe():
-    """mosprobe: path-dependency on /repo/mos-core, rebuilt from the current working tree."""
-    with Lock("cargo-probe"):
-        h = os.path.join(ROOT, "harness")
+def build_probe(crate="harness", binary="mosprobe"):
+    """a probe crate of /verif (default harness/ -> mosprobe): path-dependency on /repo/mos-core, rebuilt from the
+    current working tree.  Further crates (harness_<x>/) get their own target directory and lock."""
+    tname = "target-probe" if crate == "harness" else "target-" + crate
+    with Lock("cargo-" + crate):
+        h = os.path.join(ROOT, crate)
+        if REPO != "/repo":
+            # scratch worktree: build a copy of the crate whose path dependencies point into it
+            import shutil
+            h2 = os.path.join(CACHE, crate + "-src")
+            shutil.rmtree(h2, ignore_errors=True)
+            shutil.copytree(h, h2, ignore=shutil.ignore_patterns("target"))
+            ct = os.path.join(h2, "Cargo.toml")
+            txt = open(ct).read().replace('"/repo/', '"%s/' % REPO)
+            open(ct, "w").write(txt)
+            h = h2
         lock_src = os.path.join(REPO, "Cargo.lock")
         with open(lock_src) as f:
             want = f.read()
@@ -68,17 +86,17 @@ def build_probe():
                 f.write(want)
         t0 = time.time()
         rc, out = run(["cargo", "build", "--offline", "--quiet"], cwd=h,
-                      env={"CARGO_TARGET_DIR": os.path.join(CACHE, "target-probe")}, timeout=1500)
+                      env={"CARGO_TARGET_DIR": os.path.join(CACHE, tname)}, timeout=1500)
         if rc != 0:
             # retry once with a fresh lock copy
             with open(dst, "w") as f:
                 f.write(want)
             rc, out = run(["cargo", "build", "--offline", "--quiet"], cwd=h,
-                          env={"CARGO_TARGET_DIR": os.path.join(CACHE, "target-probe")}, timeout=1500)
+                          env={"CARGO_TARGET_DIR": os.path.join(CACHE, tname)}, timeout=1500)
         if rc != 0:
-            raise BuildError("mosprobe does not build against /repo/mos-core:\n" + out[-3000:])
-        log("mosprobe built in %.1fs" % (time.time() - t0))
-        return os.path.join(CACHE, "target-probe", "debug", "mosprobe")
+            raise BuildError(binary + " does not build against /repo/mos-core:\n" + out[-3000:])
+        log("%s built in %.1fs" % (binary, time.time() - t0))
+        return os.path.join(CACHE, tname, "debug", binary)
 
 
 def build_mos(hooks=True, release=False):
@@ -109,25 +127,42 @@ TRANSLATORS = {}
 
 
 def register_translators():
-    import t_opcodes
-    TRANSLATORS["opcodes"] = t_opcodes.translate
-    for name in ("t_evaluator", "t_codegen", "t_output", "t_textenc", "t_cpusyms", "t_fmt", "t_grammar"):
-        try:
-            mod = __import__(name)
-            TRANSLATORS[name[2:]] = mod.translate
-        except ImportError:
-            pass
+    """every translate/t_<name>.py that defines translate() is registered under <name>"""
+    tdir = os.path.join(ROOT, "translate")
+    for fn in sorted(os.listdir(tdir)):
+        if fn.startswith("t_") and fn.endswith(".py"):
+            try:
+                mod = __import__(fn[:-3])
+            except Exception as e:  # a translator that cannot even be imported is a broken tie for whoever asks for it
+                log("translator %s not importable: %s" % (fn, e))
+                continue
+            if hasattr(mod, "translate"):
+                TRANSLATORS[fn[2:-3]] = mod.translate
 
 
 # ----------------------------------------------------------------------------- Coq
 def coq_prepare():
-    """(re)generate the Makefile when _CoqProject changed."""
-    mk = os.path.join(COQ, "Makefile")
+    """_CoqProject is regenerated from the .v files present under coq/theories (sorted; coqdep orders the build);
+    the Makefile is regenerated when that list changes."""
+    files = []
+    for d, _, fs in os.walk(os.path.join(COQ, "theories")):
+        for f in fs:
+            if f.endswith(".v") and not f.startswith("."):
+                files.append(os.path.relpath(os.path.join(d, f), COQ))
+    files.sort()
+    want = "-Q theories Mos\n" + "\n".join(files) + "\n"
     prj = os.path.join(COQ, "_CoqProject")
-    if not os.path.exists(mk) or os.path.getmtime(mk) < os.path.getmtime(prj):
+    mk = os.path.join(COQ, "Makefile")
+    have = open(prj).read() if os.path.exists(prj) else ""
+    if have != want or not os.path.exists(mk):
+        with open(prj, "w") as f:
+            f.write(want)
         rc, out = run(["coq_makefile", "-f", "_CoqProject", "-o", "Makefile"], cwd=COQ)
         if rc != 0:
             raise BuildError("coq_makefile failed: " + out)
+        dep = os.path.join(COQ, ".Makefile.d")
+        if os.path.exists(dep):
+            os.remove(dep)
 
 
 ALLOWED_AXIOMS = {
@@ -243,41 +278,67 @@ def prove(prop_file, pins=None):
                 discharged += 1
         else:
             theorems.append({"name": n, "ok": False, "assumptions": ["<not checked: compilation failed>"]})
+    forbidden = forbidden_scan()
+    if forbidden:
+        # an Admitted/Axiom/... anywhere in the development voids every theorem
+        for t in theorems:
+            t["ok"] = False
+        discharged = 0
     failed = [t["name"] for t in theorems if not t["ok"]]
     err = None
     if rc != 0:
         em = re.search(r"(File \"[^\"]+\", line \d+.*?)(?:\nmake|\Z)", out, re.S)
         err = em.group(1)[:1500] if em else out[-1500:]
     return {"obligations": len(names), "discharged": discharged, "theorems": theorems, "failed": failed,
-            "error": err, "rc": rc, "structure_errors": structure_errors,
+            "error": err if not forbidden else "forbidden constructs: " + "; ".join(forbidden[:10]), "rc": rc if not forbidden else 1,
+            "structure_errors": structure_errors, "forbidden": forbidden,
             "checker_cmd": "make -C coq -j16 theories/props/%s.vo  (coqc 8.16.1, full .vo build; Print Assumptions parsed)" % prop_file}
 
 
-def build_model():
-    """extract the model to OCaml and build the mosmodel driver."""
-    with Lock("model"):
-        rc, out = coq_make(["theories/extract/Extract.vo"])
+def build_model(unit="model"):
+    """extract a model unit to OCaml and build its driver.
+
+    unit "model": theories/extract/Extract.v -> extract/gen/model.ml, driver extract/driver.ml -> .cache/mosmodel
+    unit "<u>"  : theories/extract/Extract_<u>.v -> extract/gen/<u>.ml, driver = `open <U>` + extract/prelude.ml +
+                  extract/driver_<u>.ml -> .cache/mosmodel_<u>"""
+    with Lock("model-" + unit):
+        vo = "theories/extract/Extract.vo" if unit == "model" else "theories/extract/Extract_%s.vo" % unit
+        rc, out = coq_make([vo])
         if rc != 0:
-            raise BuildError("model extraction failed:\n" + out[-3000:])
-        gen = os.path.join(ROOT, "extract", "gen")
-        exe = os.path.join(CACHE, "mosmodel")
-        srcs = [os.path.join(gen, "model.ml"), os.path.join(gen, "model.mli"), os.path.join(ROOT, "extract", "driver.ml")]
-        stamp = hashlib.sha256(b"".join(open(s, "rb").read() for s in srcs)).hexdigest()
+            raise BuildError("model extraction failed (%s):\n" % unit + out[-3000:])
+        gen = GENML
+        os.makedirs(gen, exist_ok=True)
+        exe = os.path.join(CACHE, "mosmodel" if unit == "model" else "mosmodel_" + unit)
+        bdir = os.path.join(CACHE, "ocaml-build" if unit == "model" else "ocaml-build-" + unit)
+        os.makedirs(bdir, exist_ok=True)
+        ml, mli = os.path.join(gen, unit + ".ml"), os.path.join(gen, unit + ".mli")
+        if not os.path.exists(ml):
+            # the .vo was up to date but the generated files are gone: force re-extraction
+            os.remove(os.path.join(COQ, vo))
+            rc, out = coq_make([vo])
+            if rc != 0 or not os.path.exists(ml):
+                raise BuildError("model extraction failed (%s):\n" % unit + out[-3000:])
+        if unit == "model":
+            drv = open(os.path.join(ROOT, "extract", "driver.ml"), "rb").read()
+        else:
+            drv = (("open %s\n" % (unit[0].upper() + unit[1:])).encode()
+                   + open(os.path.join(ROOT, "extract", "prelude.ml"), "rb").read()
+                   + b"\n" + open(os.path.join(ROOT, "extract", "driver_%s.ml" % unit), "rb").read())
+        parts = [open(ml, "rb").read(), open(mli, "rb").read(), drv]
+        stamp = hashlib.sha256(b"\0".join(parts)).hexdigest()
         stamp_file = exe + ".stamp"
         if os.path.exists(exe) and os.path.exists(stamp_file) and open(stamp_file).read() == stamp:
             return exe
-        bdir = os.path.join(CACHE, "ocaml-build")
-        os.makedirs(bdir, exist_ok=True)
-        for s in srcs:
-            with open(s, "rb") as fi, open(os.path.join(bdir, os.path.basename(s)), "wb") as fo:
-                fo.write(fi.read())
+        for name, data in ((unit + ".ml", parts[0]), (unit + ".mli", parts[1]), ("driver.ml", parts[2])):
+            with open(os.path.join(bdir, name), "wb") as fo:
+                fo.write(data)
         t0 = time.time()
         rc, out = run(["ocamlfind", "ocamlopt", "-inline", "50", "-w", "-a", "-package", "str", "-linkpkg",
-                       "model.mli", "model.ml", "driver.ml", "-o", exe], cwd=bdir, timeout=900)
+                       unit + ".mli", unit + ".ml", "driver.ml", "-o", exe], cwd=bdir, timeout=900)
         if rc != 0:
-            raise BuildError("mosmodel does not build:\n" + out[-3000:])
+            raise BuildError("mosmodel (%s) does not build:\n" % unit + out[-3000:])
         open(stamp_file, "w").write(stamp)
-        log("mosmodel built in %.1fs" % (time.time() - t0))
+        log("mosmodel %s built in %.1fs" % (unit, time.time() - t0))
         return exe
 
 
@@ -415,7 +476,7 @@ class Check:
             self.cov["samples"].append(s)
 
     def write_replay(self, name, obj):
-        d = os.path.join(ROOT, "evidence", "replay")
+        d = os.path.join(EVIDENCE, "replay")
         os.makedirs(d, exist_ok=True)
         path = os.path.join(d, "%s_%s.json" % (self.prop, name))
         obj = dict(obj)
@@ -436,7 +497,7 @@ class Check:
             if klass not in self.known_seen:
                 lines.append("KNOWN-FINDING: property=%s %s: %s (listed; not exercised by this run)" % (self.prop, klass, k["what"]))
         nviol = 0
-        stale = os.path.join(ROOT, "evidence", "replay", "%s_all_violations.txt" % self.prop)
+        stale = os.path.join(EVIDENCE, "replay", "%s_all_violations.txt" % self.prop)
         if os.path.exists(stale):
             os.remove(stale)
         if self.violations:
@@ -444,7 +505,7 @@ class Check:
                 path = self.write_replay("violation%d" % i, {"what": what, "replay": replay})
                 lines.append("VIOLATION property=%s replay=%s" % (self.prop, path))
             nviol = len(self.violations)
-            with open(os.path.join(ROOT, "evidence", "replay", "%s_all_violations.txt" % self.prop), "w", encoding="utf-8") as f:
+            with open(os.path.join(EVIDENCE, "replay", "%s_all_violations.txt" % self.prop), "w", encoding="utf-8") as f:
                 for what, _ in self.violations:
                     f.write(what[:400].replace("\n", "\\n") + "\n")
             rc = 1
@@ -489,8 +550,8 @@ class Check:
         cov.update(self.extra)
         ev = {"property_id": self.prop, "tier": self.tier, "seed": self.seed, "level": level, "coverage": cov,
               "assumptions": self.assumptions, "wall_s": round(time.time() - self.t0, 2), "violations": nviol}
-        os.makedirs(os.path.join(ROOT, "evidence"), exist_ok=True)
-        with open(os.path.join(ROOT, "evidence", self.prop + ".json"), "w", encoding="utf-8") as f:
+        os.makedirs(EVIDENCE, exist_ok=True)
+        with open(os.path.join(EVIDENCE, self.prop + ".json"), "w", encoding="utf-8") as f:
             json.dump(ev, f, indent=1, ensure_ascii=False, default=str)
         for l in lines:
             print(l)
